@@ -837,6 +837,9 @@ func runC04(c *Ctx) {
 		})
 	}
 
+	// premise: the measuring callback Wrap registers runs for every cell whatever other callbacks do
+	importPremises(c, "R04.4", "measuring-callback premise: ", "a cell that is not measured renders as a blank slot", nil, func() { c13InvokesAll(c, "R13.7") })
+
 	// the item's own Height()/TerminalCellWidth() is consulted for every item that reaches the text dispatch,
 	// whatever its text (an item with empty text may still declare a size)
 	if upd := c.Method(c.Named("", "Cell"), true, "Update"); upd != nil {
